@@ -152,14 +152,3 @@ pub fn vx_assert(c: bool) requires c { unimplemented!() }
 /// panic!() / unreachable!(): must be unreachable
 #[verifier::external_body]
 pub fn vx_panic() -> ! requires false { unimplemented!() }
-
-// ---- str predicates with a pattern argument (starts_with / ends_with / contains) ----
-/// the text of a pattern argument when it is a string slice (other pattern kinds: unknown)
-pub uninterp spec fn pat_text<P>(p: P) -> Option<Seq<char>>;
-//@broadcast axiom_pat_text_str
-pub broadcast proof fn axiom_pat_text_str(p: &str) ensures #[trigger] pat_text::<&str>(p) == Some(p@) { admit(); }
-pub open spec fn is_prefix(a: Seq<char>, s: Seq<char>) -> bool { a.len() <= s.len() && s.subrange(0, a.len() as int) == a }
-pub open spec fn is_suffix(a: Seq<char>, s: Seq<char>) -> bool { a.len() <= s.len() && s.subrange(s.len() - a.len(), s.len() as int) == a }
-#[verifier::allow(undeclared_external_trait)]
-pub assume_specification<P: core::str::pattern::Pattern>[ str::starts_with::<P> ](s: &str, p: P) -> (r: bool)
-    ensures pat_text(p) is Some ==> r == is_prefix(pat_text(p)->Some_0, s@);
